@@ -13,7 +13,9 @@
 EXTENDS Naturals, Sequences, TLC, Json
 CONSTANTS MaxRec
 Ops == {"stat", "list", "pull", "pullcb"}
-Ids == {"DATA", "DENT", "DONE", "STAT", "FAIL", "OKAY"}        \* OKAY: a FileSync id that is never valid in a reply to these requests
+Ids == {"DATA", "DENT", "DONE", "STAT", "FAIL", "OKAY", "CLSE"}
+\* OKAY: a FileSync id that is never valid in a reply to these requests; "CLSE" is not a record: the device closes the stream at that
+\* point (the service died) - the host gets nothing more, its wait times out, and it still sends exactly one CLSE where it closes at all
 RECURSIVE SeqsUpTo(_)
 SeqsUpTo(n) == IF n = 0 THEN {<<>>} ELSE LET S == SeqsUpTo(n - 1) IN S \cup {Append(s, x) : s \in {t \in S : Len(t) = n - 1}, x \in Ids}
 VARIABLES op, script, failAt, pc, pos, items, nclse, outcome
@@ -27,7 +29,7 @@ Finish(out, closes) == /\ outcome' = out /\ nclse' = nclse + (IF closes THEN 1 E
 Raise(out) == Finish(out, IsPull)                       \* pull closes its stream in a finally; stat and list do not (as built)
 Expected == IF op = "stat" THEN {"STAT"} ELSE IF op = "list" THEN {"DENT", "DONE"} ELSE {"DATA", "DONE"}
 Read == /\ pc = "read"
-        /\ IF pos > Len(script) THEN Raise("timeout")                       \* nothing more arrives: the read times out
+        /\ IF pos > Len(script) \/ script[pos] = "CLSE" THEN Raise("timeout")   \* nothing more arrives (silence, or the device closed the stream): the read times out
            ELSE LET r == script[pos] IN
                 IF r \notin Expected THEN Raise(IF r = "FAIL" THEN "AdbCommandFailureException" ELSE "InvalidResponseError")
                 ELSE IF r = "DONE" THEN Finish("ret", TRUE)
@@ -42,11 +44,11 @@ FirstBad == IF \E i \in 1..Len(script) : script[i] \notin (Expected \ {"DONE"}) 
 \* C10: a FAIL that the operation gets to see surfaces as the documented exception, never as a success or a timeout
 FailSurfaces == (pc = "done" /\ FirstBad # 0 /\ script[FirstBad] = "FAIL" /\ (~IsPull \/ failAt = 0 \/ failAt > FirstBad - 1) /\ op # "stat")
                   => outcome = "AdbCommandFailureException"
-InvalidStatus == (pc = "done" /\ FirstBad # 0 /\ script[FirstBad] \notin {"FAIL", "DONE"} /\ (~IsPull \/ failAt = 0 \/ failAt > FirstBad - 1) /\ op # "stat")
+InvalidStatus == (pc = "done" /\ FirstBad # 0 /\ script[FirstBad] \notin {"FAIL", "DONE", "CLSE"} /\ (~IsPull \/ failAt = 0 \/ failAt > FirstBad - 1) /\ op # "stat")
                   => outcome = "InvalidResponseError"
 \* C08 / C09: a normal return hands over exactly the records before the DONE, in order
 ExactOnReturn == (pc = "done" /\ outcome = "ret" /\ op # "stat") => (FirstBad # 0 /\ script[FirstBad] = "DONE" /\ items = [i \in 1..(FirstBad - 1) |-> i])
-StatRule == (pc = "done" /\ op = "stat") => outcome = (IF script = <<>> THEN "timeout" ELSE IF script[1] = "STAT" THEN "ret"
+StatRule == (pc = "done" /\ op = "stat") => outcome = (IF script = <<>> \/ script[1] = "CLSE" THEN "timeout" ELSE IF script[1] = "STAT" THEN "ret"
                                                            ELSE IF script[1] = "FAIL" THEN "AdbCommandFailureException" ELSE "InvalidResponseError")
 \* C04: a normal return closes the stream exactly once; pull closes it however it ends
 ClosesOnce == pc = "done" => (nclse <= 1 /\ (outcome = "ret" => nclse = 1) /\ (IsPull => nclse = 1))
